@@ -825,6 +825,35 @@ class G:
                             for q in ("pav", "nav", "pv", "nv"):
                                 self.emit("%s %s %d" % (q, x, v))
             self.count("nbr:fixed-word-distances")
+        # (a2) MANY chunks (the key search gallops and bisects) with every target chunk absent, in a gap between existing keys: keys
+        #      2, 5, 8, ... (70 of them), each holding the same four values; targets in the gaps with every order of the low bits
+        x = self.fresh("nb")
+        self.emit("new %s" % x)
+        for v in (5, 300, 40000, 65535):
+            self.emit("addstride %s %d %d 70" % (x, 2 * CH + v, 3 * CH))
+        for j in range(0, 70):
+            for k in (3 * j + 3, 3 * j + 4):          # the two absent keys after key 3j+2
+                for low in (6, 299, 65535):
+                    t = k * CH + low
+                    for q in ("nv", "pv"):
+                        self.emit("%s %s %d" % (q, x, t))
+        for t in (0, CH, 2 * CH + 4, 2 * CH + 6, 209 * CH + 65535, 212 * CH, U32 - 1):
+            for q in ("nv", "pv", "nav", "pav"):
+                self.emit("%s %s %d" % (q, x, t))
+        self.count("nbr:fixed-many-chunks-gaps")
+        # (a3) run chunks with 16+ runs whose top is a comb of isolated single values (…, 65531, 65533, 65535) / (…, 65530, 65532, 65534)
+        for top in (65535, 65534):
+            for k in (0, 6, 65535):
+                x = self.fresh("nb")
+                self.emit("new %s" % x)
+                for j in range(20):
+                    self.emit("addr %s %d %d" % (x, k * CH + 1000 * j, k * CH + 1000 * j + 17 + j))
+                self.emit("addstride %s %d 2 40" % (x, k * CH + top - 78))
+                self.emit("opt %s" % x)
+                for t in range(top - 84, top + 1):
+                    for q in ("nv", "pv", "nav", "pav"):
+                        self.emit("%s %s %d" % (q, x, k * CH + t))
+                self.count("nbr:fixed-run-comb-top")
         # (b) a completely full chunk stored as bitmap / run / after in-place xor, between a chunk solid to its upper edge and a
         #     chunk that starts with a solid prefix; also as the last chunk 0xFFFF
         for k in (19, 20, 0xB0C4, 0xFFFD, 0xFFFE):
@@ -905,6 +934,30 @@ class G:
     def sflip_edit_episode(self):
         """static Flip over ranges that cover several whole chunks ABSENT from the operand, then point / range edits of the result
         inside those chunks: each created chunk must be its own container"""
+        # static Flip of a range lying INSIDE a block of consecutive present values of an array chunk (members above the range), of a
+        # range ending exactly at the block's end, and of ranges with absent values: result, then the OPERAND again
+        x = self.fresh("sf")
+        self.emit("new %s" % x)
+        self.emit("addr %s %d %d" % (x, 1234 * CH + 100, 1234 * CH + 400))
+        self.emit("of %s %s" % (self.fresh("sf"), "1"))
+        self.emit("addmany %s %d %d %d" % (x, 1234 * CH + 5000, 1234 * CH + 5002, 1234 * CH + 60000))
+        self.emit("addmany %s %d %d" % (x, 1235 * CH + 1, 1236 * CH + 2))
+        for lo, hi in ((150, 200), (100, 400), (100, 150), (350, 400), (399, 400), (90, 200), (150, 5001), (5000, 5001), (60000, 60001)):
+            y = self.fresh("sf")
+            self.emit("sflip %s %s %d %d" % (y, x, 1234 * CH + lo, 1234 * CH + hi))
+            self.emit("dig %s" % x)
+            self.emit("toarr %s" % x)
+            self.emit("wf %s" % y)
+            self.count("xform:sflip-inside-present-block")
+        # AddOffset (32-bit entry point) pushing PART of the bitmap beyond 2^32, and its 64-bit sibling
+        x = self.fresh("sf")
+        self.emit("of %s %s" % (x, " ".join(map(str, [7, 70000, U32 - 70000, U32 - 3000, U32 - 1]))))
+        self.emit("addr %s %d %d" % (x, U32 - 200000, U32 - 190000))
+        for d in (1, 2999, 3000, 3001, 69999, 70000, 70001, 190000, 200001, U32 - 8, U32 - 7, U32 - 1):
+            self.emit("off32 %s %s %d" % (self.fresh("sf"), x, d))
+            self.emit("off %s %s %d" % (self.fresh("sf"), x, d))
+        self.emit("dig %s" % x)
+        self.count("xform:off32-partly-out-of-range")
         for vals in ([5, 3 * CH + 7, 10 * CH + 3], []):
             x = self.fresh("sf")
             self.emit("new %s" % x)
